@@ -112,7 +112,11 @@ class MWorld:
             if cls.endswith('XToken'):
                 a = [m.ev(x) for x in c.get('args', [])]
                 s = [x for x in a if isinstance(x, str)]
-                return Tok(s[0] if s else '')
+                t = Tok(s[0] if s else '')
+                nums = [x for x in a if isinstance(x, float)]
+                if nums:
+                    t.num = nums[0]
+                return t
             if 'OpCodeMapValueVectorType' in (c.get('ty') or '') or 'XalanVector' in cls:
                 a = [m.ev(x) for x in c.get('args', [])]
                 if len(a) >= 2 and isinstance(a[0], int) and isinstance(a[1], int):
@@ -149,7 +153,11 @@ class MWorld:
                 if n == 'num':
                     return 0.0
                 if n == 'set':
-                    tgt.s = [x for x in (m.ev(y) for y in c['args']) if isinstance(x, str)][0]
+                    vals = [m.ev(y) for y in c['args']]
+                    tgt.s = [x for x in vals if isinstance(x, str)][0]
+                    nums = [x for x in vals if isinstance(x, float)]
+                    if nums:
+                        tgt.num = nums[0]
                     return 0
             if isinstance(tgt, TNode):
                 return self.node_method(m, tgt, n, c)
@@ -240,6 +248,120 @@ class MWorld:
         raise Unsupported('node method ' + n)
 
 
+NPOS = 2 ** 64 - 1
+
+
+class NList:
+    identity = True
+
+    def __init__(self):
+        self.items = []
+        self.flag = 'unknown'
+
+
+class PWorld(MWorld):
+    def hook(self, m, c):
+        k = c['k']
+        n = c.get('n') or (callee(c).split('::')[-1] if c.get('fn') != '<memptr>' else '<memptr>')
+        cls = c.get('cls') or ''
+        if k == 'Ctor' and ('BorrowReturnMutableNodeRefList' in cls or 'GetCachedNodeList' in cls):
+            return NList()
+        if k == 'Ctor' and ('PushAndPop' in cls or 'SetAndRestore' in cls):
+            return 'GUARD'      # context node list / current node bookkeeping: read by position() and last() only, which predicate-free paths do not call
+        if k == 'OpCall' and c.get('op') in ('*', '->') and len(c['args']) == 1:
+            v = m.ev(c['args'][0])
+            if isinstance(v, NList):
+                return v
+        if k == 'MCall':
+            tgt = m.target_obj(c)
+            if isinstance(tgt, NList):
+                a = c.get('args', [])
+                if n == 'get':
+                    return tgt
+                if n == 'addNode':
+                    tgt.items.append(m.ev(a[0])); return 0
+                if n == 'addNodeInDocOrder':
+                    nd = m.ev(a[0])
+                    if nd not in tgt.items:
+                        tgt.items.append(nd); tgt.items.sort(key=lambda x: x.order)
+                    return 0
+                if n == 'addNodesInDocOrder':
+                    o = m.ev(a[0])
+                    for nd in o.items:
+                        if nd not in tgt.items:
+                            tgt.items.append(nd)
+                    tgt.items.sort(key=lambda x: x.order)
+                    return 0
+                if n == 'setDocumentOrder':
+                    tgt.flag = 'document'; return 0
+                if n == 'setReverseDocumentOrder':
+                    tgt.flag = 'reverse'; return 0
+                if n == 'getDocumentOrder':
+                    return int(tgt.flag == 'document')
+                if n == 'getReverseDocumentOrder':
+                    return int(tgt.flag == 'reverse')
+                if n == 'empty':
+                    return int(not tgt.items)
+                if n == 'getLength':
+                    return len(tgt.items)
+                if n == 'item':
+                    i = int(m.ev(a[0]))
+                    if not (0 <= i < len(tgt.items)):
+                        raise Fault('item(%d) of a list of %d' % (i, len(tgt.items)))
+                    return tgt.items[i]
+                if n == 'indexOf':
+                    nd = m.ev(a[0])
+                    return tgt.items.index(nd) if nd in tgt.items else NPOS
+                if n == 'clear':
+                    tgt.items = []; tgt.flag = 'unknown'; return 0
+                if n == 'swap':
+                    o = m.ev(a[0])
+                    tgt.items, o.items = o.items, tgt.items
+                    tgt.flag, o.flag = o.flag, tgt.flag
+                    return 0
+                if n == 'reverse':
+                    tgt.items.reverse()
+                    tgt.flag = {'document': 'reverse', 'reverse': 'document'}.get(tgt.flag, tgt.flag)
+                    return 0
+                raise Unsupported('node list method ' + n)
+            if n == 'getOwnerDocument' and isinstance(tgt, TNode):
+                return 0 if tgt.kind == 'doc' else self.doc
+            if n == 'getDocumentElement' and isinstance(tgt, TNode):
+                return next((x for x in tgt.children if x.kind == 'elem'), 0)
+        if k == 'Call' and n == 'toDouble':
+            v = m.ev(c['args'][0])
+            try:
+                return float(v)
+            except (TypeError, ValueError):
+                return float('nan')
+        if k == 'Ctor' and 'PushAndPop' in cls:
+            return 'GUARD'
+        if k == 'MCall':
+            tgt = m.target_obj(c)
+            if n == 'getXObjectFactory':
+                return 'FACTORY'
+            if tgt == 'FACTORY' and n == 'createNumber':
+                v = m.ev(c['args'][0])
+                return ('XOBJ', 'number', float(getattr(v, 'num', None) if isinstance(v, Tok) and getattr(v, 'num', None) is not None else (v.s if isinstance(v, Tok) else v)))
+            if isinstance(tgt, tuple) and tgt and tgt[0] == 'XOBJ':
+                if n == 'getType':
+                    return self.facts.enumconst.get(NS + 'XObject::eTypeNumber') if tgt[1] == 'number' else -99
+                if n == 'num':
+                    return tgt[2]
+                if n == 'boolean':
+                    return int(tgt[2] == tgt[2] and tgt[2] != 0)
+                if n in ('get', 'null'):
+                    return tgt if n == 'get' else 0
+        if k == 'Ctor' and 'XObjectPtr' in cls and len(c.get('args', [])) == 1:
+            return m.ev(c['args'][0])
+        if k == 'OpCall' and c.get('op') in ('->', '*') and len(c['args']) == 1:
+            v = m.ev(c['args'][0])
+            if isinstance(v, tuple) and v and v[0] == 'XOBJ':
+                return v
+        return super().hook(m, c)
+
+
+
 # ------------------------------------------------------------------------------------------------------------------ trees and patterns
 def tree():
     """<a x=".." y=".."><b x=".."><a><b/>text</a></b><a/>text<b><b y=".."/></b></a> : names repeat at several depths"""
@@ -290,6 +412,9 @@ def path(n):
 
 
 STEPS = [['a'], ['b'], ['*'], ['@', 'x'], ['@', '*'], ['text', '(', ')'], ['node', '(', ')'], ['@', 'node', '(', ')']]
+# steps with a literal position predicate: the matcher evaluates the step from the parent (handleFoundIndexPositional -> XPath::step) and looks for the node
+INDEXED_STEPS = [['a', '[', '1', ']'], ['b', '[', '2', ']'], ['*', '[', '2', ']'], ['node', '(', ')', '[', '1', ']'], ['@', '*', '[', '2', ']'], ['*', '[', '1', ']', '[', '1', ']'],
+                 ['*', '[', '3', ']'], ['text', '(', ')', '[', '1', ']']]
 
 
 def patterns(maxsteps):
@@ -307,6 +432,15 @@ def patterns(maxsteps):
 
 
 def step_matches(step, n):
+    if '[' in step:
+        i = step.index('[')
+        base, idx = step[:i], [int(x) for x in step[i:] if x.isdigit()]
+        if not step_matches(base, n) or n.parent is None:
+            return False
+        sibs = [x for x in (n.parent.attrs if n.kind == 'attr' else n.parent.children) if step_matches(base, x)]
+        for k in idx:
+            sibs = [sibs[k - 1]] if 1 <= k <= len(sibs) else []
+        return n in sibs
     if step == ['a'] or step == ['b']:
         return n.kind == 'elem' and n.local == step[0]
     if step == ['*']:
@@ -405,7 +539,7 @@ def run_rule(res, facts, tier):
     r = res.rule('C09-R9', 'compile and match end to end by interpretation: for predicate-free patterns of up to 3 steps (name tests, *, text(), node(), @x, @*, @node(); / and //; '
                  'relative, rooted and //-rooted) the pattern parser writing a real op-code map and the matcher reading it are interpreted on every node of a tree in which '
                  'names repeat at several depths; "matches" is exactly the definition of XSLT 1.0 5.2', floor=4000)
-    w = MWorld(facts)
+    w = PWorld(facts)
 
     def one(name, pred=lambda a: True):
         c = [a for a in facts.asts(name, must=False) if a.get('body') is not None and pred(a)]
@@ -418,6 +552,14 @@ def run_rule(res, facts, tier):
     doc, nodes = tree()
     w.doc = doc
     pats = patterns(3 if tier == 'thorough' else 2)
+    for st in INDEXED_STEPS:
+        for lead in ([], ['/'], ['/', '/']):
+            pats.append(lead + st)
+        for s1 in (['a'], ['*'], ['b']):
+            for sep in (['/'], ['/', '/']):
+                pats.append(s1 + sep + st)
+                pats.append(st + sep + s1)
+                pats.append(['/', '/'] + st + sep + s1)
     if tier != 'thorough':
         pats += [p for i, p in enumerate(patterns(3)) if i % 9 == 0]
     seen = set()
@@ -473,7 +615,7 @@ def run_rule(res, facts, tier):
                 r.instances += 1
                 continue
             lead, steps = split(toks)
-            shape = (lead or 'rel') + ' ' + ' '.join((s or '') + ('@' if st[0] == '@' else ('t' if st[0] in ('text', 'node') else 'n')) for s, st in steps)
+            shape = (lead or 'rel') + ' ' + ' '.join((s or '') + ('@' if st[0] == '@' else ('t' if st[0] in ('text', 'node') else 'n')) + ('[i]' if '[' in st else '') for s, st in steps)
             key = (shape, bool(want))
             if key not in found:
                 found[key] = (ptxt, nd, got, want)
